@@ -73,7 +73,9 @@ alphabet!(Prefix {
     Teach => "arp-or-ns-teaches-peer",
     SynOwn => "syn-to-own-listener",
     SynBcast => "syn-to-broadcast-or-all-nodes",
+    SynBcastQueued => "syn-to-broadcast-or-all-nodes-no-egress-pass-before-next-frame",
     UdpOwn => "udp-to-own-port",
+    Handshake => "syn-then-ack-establishes-connection",
 });
 
 // ---- concrete addresses ----------------------------------------------------------------
@@ -219,6 +221,16 @@ pub fn mapped_mac(dst: &Addr) -> [u8; 6] {
     }
 }
 
+/// First frame of a generic depth-2 sequence: the table coordinates of another cell.
+#[derive(Clone, Copy, Debug, PartialEq, Eq)]
+pub struct First {
+    pub kind: Kind,
+    pub ll: LlDst,
+    pub dst: Dst,
+    pub src: Src,
+    pub port_match: bool,
+}
+
 /// One cell of the table (plus the base configuration it runs on).
 #[derive(Clone, Copy, Debug, PartialEq, Eq)]
 pub struct Cell {
@@ -233,6 +245,7 @@ pub struct Cell {
     pub joined: bool,
     pub primed: bool,
     pub prefix: Prefix,
+    pub auto_first: Option<First>,
 }
 
 impl Cell {
@@ -242,6 +255,7 @@ impl Cell {
             "ll_dst": self.ll.name(), "dst": self.dst.name(), "src": self.src.name(),
             "port_match": self.port_match, "sockets": self.sock.name(), "group_g_joined": self.joined,
             "neighbors_primed": self.primed, "prefix": self.prefix.name(),
+            "first_cell": self.auto_first.map(|f| json!({"kind": f.kind.name(), "ll_dst": f.ll.name(), "dst": f.dst.name(), "src": f.src.name(), "port_match": f.port_match})),
         })
     }
     pub fn from_json(v: &Value) -> Option<Cell> {
@@ -259,13 +273,30 @@ impl Cell {
             joined: b("group_g_joined")?,
             primed: b("neighbors_primed")?,
             prefix: Prefix::from_name(s("prefix")?)?,
+            auto_first: match v.get("first_cell") {
+                Some(f) if !f.is_null() => {
+                    let fs = |k: &str| f.get(k).and_then(|x| x.as_str());
+                    Some(First {
+                        kind: Kind::from_name(fs("kind")?)?,
+                        ll: LlDst::from_name(fs("ll_dst")?)?,
+                        dst: Dst::from_name(fs("dst")?)?,
+                        src: Src::from_name(fs("src")?)?,
+                        port_match: f.get("port_match").and_then(|x| x.as_bool())?,
+                    })
+                }
+                _ => None,
+            },
         })
     }
     pub fn describe(&self) -> String {
+        let first = match &self.auto_first {
+            Some(f) => format!(" first-cell=[{} ll={} dst={} src={} port_match={}]", f.kind.name(), f.ll.name(), f.dst.name(), f.src.name(), f.port_match),
+            None => String::new(),
+        };
         format!(
-            "{} {} {} ll={} dst={} src={} port_match={} sockets={} joined={} primed={} prefix={}",
+            "{} {} {} ll={} dst={} src={} port_match={} sockets={} joined={} primed={} prefix={}{}",
             self.med.name(), self.ver.name(), self.kind.name(), self.ll.name(), self.dst.name(), self.src.name(),
-            self.port_match, self.sock.name(), self.joined, self.primed, self.prefix.name()
+            self.port_match, self.sock.name(), self.joined, self.primed, self.prefix.name(), first
         )
     }
 }
